@@ -2,5 +2,5 @@
 Require Import H4.EStoreSpec H4.HBlocksModel.
 Require Extraction.
 Require ExtrOcamlBasic.
-Extraction "../extract/gen/estore_spec.ml" EStoreSpec.step EStoreSpec.init.
+Extraction "../extract/gen/estore_spec.ml" EStoreSpec.step EStoreSpec.init EStoreSpec.bstep EStoreSpec.binit.
 Extraction "../extract/gen/hblocks_model.ml" hl_new hl_of_data hl_write hl_read hl_seek table_flags fl bl nb len.
